@@ -32,7 +32,7 @@ def generate(rng, tier):
     if r < 0.38:
         target = {'kind': 'module', 'compose': rng.getrandbits(48)}
     elif r < 0.45:
-        target = {'kind': 'module', 'ties': {'n': rng.choice([2, 3, 5, 8]), 'salt': rng.randrange(1000)}}
+        target = {'kind': 'module', 'ties': {'n': rng.choice([4, 6, 8, 10]), 'salt': rng.randrange(100000)}}
     elif r < 0.53:
         target = {'kind': 'module', 'shipped': rng.choice(SHIPPED_MODS)}
     elif r < 0.76:
@@ -62,7 +62,8 @@ def generate(rng, tier):
                 h['fail_file'] = rng.choice(['gamma', 'claim', 'proof'])
             hist.append(h)
         execs.append({'hashseed': rng.choice([0, 1, 2, 3, 5, 7, 11, 13]), 'noise': rng.choice([0, 1, 17, 1000, 4099]), 'history': hist})
-    return {'target': target, 'optimize': rng.random() < 0.6, 'execs': execs, '_tier': tier}
+    opt = rng.random() < 0.6
+    return {'target': target, 'optimize': opt or 'ties' in target, 'execs': execs, '_tier': tier}
 
 
 CAP = [2500]
